@@ -177,36 +177,36 @@ check_get(Ctx& x, const char* where)
     ImageShape s;
     memset(&s, 0, sizeof s);
     if (camera_get_image_shape(x.cam, &s) != Device_Ok) {
-        x.c.fail("C17", "get-shape-status", "err", "%s: camera_get_image_shape failed", where);
+        x.c.fail_soft("C17", "get-shape-status", "err", "%s: camera_get_image_shape failed", where);
         return;
     }
     const ImageShape& m = x.mshape;
     if (s.dims.channels != 1 || s.dims.planes != 1 || s.dims.width != m.dims.width || s.dims.height != m.dims.height) {
-        x.c.fail("C17", "reported-dims", "mismatch", "%s: camera reports dims (%u,%u,%u,%u); configuration implies (1,%u,%u,1)", where, s.dims.channels,
+        x.c.fail_soft("C17", "reported-dims", "mismatch", "%s: camera reports dims (%u,%u,%u,%u); configuration implies (1,%u,%u,1)", where, s.dims.channels,
                  s.dims.width, s.dims.height, s.dims.planes, m.dims.width, m.dims.height);
         return;
     }
     if (s.strides.channels != 1 || s.strides.width != 1 || s.strides.height != (int64_t)m.dims.width ||
         s.strides.planes != (int64_t)m.dims.width * m.dims.height) {
-        x.c.fail("C17", "reported-strides", "mismatch", "%s: strides (%lld,%lld,%lld,%lld) do not match dims %ux%u", where, (long long)s.strides.channels,
+        x.c.fail_soft("C17", "reported-strides", "mismatch", "%s: strides (%lld,%lld,%lld,%lld) do not match dims %ux%u", where, (long long)s.strides.channels,
                  (long long)s.strides.width, (long long)s.strides.height, (long long)s.strides.planes, m.dims.width, m.dims.height);
         return;
     }
     if (s.type != m.type) {
-        x.c.fail("C17", "reported-type", "mismatch", "%s: camera reports sample type %d, configured %d", where, (int)s.type, (int)m.type);
+        x.c.fail_soft("C17", "reported-type", "mismatch", "%s: camera reports sample type %d, configured %d", where, (int)s.type, (int)m.type);
         return;
     }
     CameraProperties p;
     memset(&p, 0, sizeof p);
     if (camera_get(x.cam, &p) != Device_Ok) {
-        x.c.fail("C17", "get-status", "err", "%s: camera_get failed", where);
+        x.c.fail_soft("C17", "get-status", "err", "%s: camera_get failed", where);
         return;
     }
     const CameraProperties& q = x.model;
     if (p.exposure_time_us != q.exposure_time_us || p.binning != q.binning || p.pixel_type != q.pixel_type || p.offset.x != q.offset.x ||
         p.offset.y != q.offset.y || p.shape.x != m.dims.width || p.shape.y != m.dims.height ||
         (p.input_triggers.frame_start.enable != 0) != (q.input_triggers.frame_start.enable != 0)) {
-        x.c.fail("C17", "readback", "mismatch",
+        x.c.fail_soft("C17", "readback", "mismatch",
                  "%s: read back exposure=%g binning=%u type=%d offset=(%u,%u) shape=(%u,%u) trigger=%u; in effect exposure=%g binning=%u type=%d offset=(%u,%u) shape=(%u,%u) trigger=%u",
                  where, p.exposure_time_us, p.binning, (int)p.pixel_type, p.offset.x, p.offset.y, p.shape.x, p.shape.y, p.input_triggers.frame_start.enable,
                  q.exposure_time_us, q.binning, (int)q.pixel_type, q.offset.x, q.offset.y, m.dims.width, m.dims.height, q.input_triggers.frame_start.enable);
@@ -274,6 +274,7 @@ do_set(Ctx& x, const VhTok& t)
         static const uint8_t truthy[4] = { 1, 2, 0x80, 0xfe };
         p.input_triggers.frame_start.enable = ((t.d >> 11) & 1) ? truthy[(t.c >> 9) & 3] : 0;
     }
+    const bool want_trigger = (t.d >> 11) & 1; // what the caller means, whatever the field can hold
     p.line_interval_us = 1.5f;
     uint8_t asked_binning = p.binning;
     x.c.trace("B: SET binning=%u type=%s shape=(%u,%u) offset=(%u,%u) exposure=%gus trigger=%u", p.binning, sample_type_as_string(p.pixel_type), p.shape.x,
@@ -316,6 +317,7 @@ do_set(Ctx& x, const VhTok& t)
     }
     x.model = p;
     x.model.binning = eff;
+    x.model.input_triggers.frame_start.enable = want_trigger ? 1 : 0;
     uint32_t lim = 8192 / eff;
     memset(&x.mshape, 0, sizeof x.mshape);
     x.mshape.dims.channels = 1;
